@@ -146,6 +146,8 @@ def library_outcome(cmd, expr, doc_text, opts):
         return ("foreign", type(e).__name__)
 
 
+# numbers that are well-formed JSON text but overflow a double (the library reads them as infinities, and prints them so)
+OVERFLOW_DOCS = ['{"readings": [1.5, 1e999, -1e999], "ok": 1}', '[1e999]', '{"a": {"b": -1e999}, "list": ["x", 1e400]}', '{"big": 1E+999, "small": 1e-999}']
 STRING_ROOT_DOCS = ['"[1, 2]"', '"12"', '"a[0]"', '"hello"', '"true"', '"{\\"a\\": 1}"', '""', "12", "null", "[]"]
 
 
@@ -364,6 +366,17 @@ def run(spec, ctx):
                     if files.n > 400:
                         shutil.rmtree(tmp, ignore_errors=True)
                         files = Files(tmp)
+        if spec["part"] == 1:
+            small = {"path": [("valid", "$..*"), ("valid", "$.readings[*]"), ("valid", "$.ok"), ("valid", "$[?@ > 1e308]")], "pointer": [("valid", ""), ("valid", "/readings/1"), ("unresolvable", "/zz")],
+                     "patch": [("valid", []), ("valid", [{"op": "add", "path": "/new", "value": 1}]), ("valid", [{"op": "copy", "from": "/readings", "path": "/again"}]), ("failing", [{"op": "remove", "path": "/zz"}])]}[cmd]
+            for label, expr in small:
+                for dt in OVERFLOW_DOCS:
+                    for opts in option_product(cmd):
+                        if opts["debug"] or opts["no_unicode_escape"] or opts["expr_file"] or opts["no_type_checks"] or opts["uri_decode"]:
+                            continue
+                        check(ctx, files, cmd, label, expr, True, opts, r.random() < max(sub_share, 0.2), REPO, doc_text=dt)
+                        ctx.count("documents_with_overflowing_numbers")
+                        n += 1
         # documents whose root is a JSON string (possibly looking like JSON itself), a number, null
         if spec["part"] == 0:
             small = {"path": [("valid", "$"), ("valid", "$[0]"), ("valid", "$..*")], "pointer": [("valid", ""), ("unresolvable", "/0"), ("unresolvable", "/a")],
